@@ -2,6 +2,7 @@
 //! (see coq/theories/Base/Sexp.v) and a line-oriented runner that catches panics.
 use std::io::{BufRead, Write};
 pub mod values;
+pub mod ast;
 
 #[derive(Clone, Debug, PartialEq, Eq)]
 pub enum Sexp {
